@@ -245,6 +245,27 @@ func jobC02(c *rt.Ctx) {
 		if sv.v == ref.Ph && sv.ctx == "" {
 			s5, e5 := priv.Sign(rec, msg, crypto.SHA512)
 			check("sha512", s5, e5)
+			// any crypto.SignerOpts implementation selects the variant through HashFunc()
+			s6, e6 := priv.Sign(rec, msg, customOpts{crypto.SHA512})
+			check("custom-signeropts", s6, e6)
+			s7, e7 := priv.Sign(rec, msg, &customOptsPtr{crypto.SHA512})
+			check("custom-signeropts", s7, e7)
+		}
+		if sv.v == ref.Pure {
+			s6, e6 := priv.Sign(rec, msg, customOpts{crypto.Hash(0)})
+			check("custom-signeropts", s6, e6)
+			s7, e7 := priv.Sign(rec, msg, &customOptsPtr{crypto.Hash(0)})
+			check("custom-signeropts", s7, e7)
+			func() {
+				defer func() {
+					if r := recover(); r != nil {
+						c.Violation("C02 custom-signeropts panic", fmt.Sprintf("PrivateKey.Sign panicked on a caller-defined crypto.SignerOpts: %v", r), nil)
+					}
+				}()
+				if _, e := priv.Sign(rec, msg, customOpts{crypto.SHA256}); e == nil {
+					c.Violation("C02 custom-signeropts unsupported", "PrivateKey.Sign accepted a caller-defined SignerOpts selecting SHA-256", nil)
+				}
+			}()
 		}
 		if !bytes.Equal(priv, privCopy) || !bytes.Equal(msg, msgCopy) {
 			c.Violation("C02 input-modified", "Sign modified its private key or message argument", map[string]interface{}{"seed": ref.Hex(seed)})
@@ -631,3 +652,12 @@ func implBatchReader(entries []triple, vs variantSpec, zip bool, rd io.Reader) (
 	valid = ownResult(valid)
 	return
 }
+
+// customOpts / customOptsPtr: caller-defined crypto.SignerOpts implementations (by value and by pointer).
+type customOpts struct{ h crypto.Hash }
+
+func (o customOpts) HashFunc() crypto.Hash { return o.h }
+
+type customOptsPtr struct{ h crypto.Hash }
+
+func (o *customOptsPtr) HashFunc() crypto.Hash { return o.h }
